@@ -639,6 +639,13 @@ def values_equal(it, a, b):
     if isinstance(a, BytesV) and isinstance(b, BytesV):
         return a.b == b.b
     for x, y in ((a, b), (b, a)):
+        if isinstance(x, SV) and z3.is_fp_sort(x.t.sort()):
+            if isinstance(y, SV) and z3.is_fp_sort(y.t.sort()):
+                return z3.fpEQ(x.t, y.t)
+            if isinstance(y, (int, float)) and not isinstance(y, bool):
+                return z3.fpEQ(x.t, z3.FPVal(float(y), x.t.sort()))
+            return False
+    for x, y in ((a, b), (b, a)):
         if isinstance(x, Opaque) and x.kind in ('result', 'item', 'dictval', 'listelem') and not isinstance(y, Opaque):
             # value returned by an unmodelled call compared with something: unknown but fixed
             yid = y.oid if hasattr(y, 'oid') else (hash(repr(y)) % (2 ** 31))
@@ -788,6 +795,16 @@ def compare(it, op, a, b):
             return r if isinstance(r, bool) else wrap(r)
         return (not r) if isinstance(r, bool) else wrap(z3.Not(r))
     # ordering
+    for x, y, flip in ((a, b, False), (b, a, True)):
+        if isinstance(x, SV) and z3.is_fp_sort(x.t.sort()):
+            if isinstance(y, SV) and z3.is_fp_sort(y.t.sort()):
+                ty = y.t
+            elif isinstance(y, (int, float)) and not isinstance(y, bool):
+                ty = z3.FPVal(float(y), x.t.sort())
+            else:
+                raise Unsupported('ordering of a float against %r' % (y,))
+            l, r = (x.t, ty) if not flip else (ty, x.t)
+            return wrap({'Lt': z3.fpLT(l, r), 'LtE': z3.fpLEQ(l, r), 'Gt': z3.fpGT(l, r), 'GtE': z3.fpGEQ(l, r)}[name])
     sa, sb = _num_sort(a), _num_sort(b)
     if isinstance(a, (int, float)) and isinstance(b, (int, float)):
         return {'Lt': a < b, 'LtE': a <= b, 'Gt': a > b, 'GtE': a >= b}[name]
@@ -1774,7 +1791,11 @@ def _re_sub(it, r, repl, s):
 
 
 def _re_findall(it, r, s):
-    raise Unsupported('re.findall')
+    if isinstance(r.pattern, str) and isinstance(s, str):
+        import re as _re
+        res = _re.findall(r.pattern, s)
+        return PyList([x if isinstance(x, str) else tuple(x) for x in res])
+    raise Unsupported('re.findall on symbolic text')
 
 
 REGEX_METHODS = {'match': _re_match, 'fullmatch': _re_fullmatch, 'search': _re_search, 'sub': _re_sub,
@@ -2111,6 +2132,8 @@ def isinstance_(it, v, t):
             return n in ('bool', 'int')
         if s.eq(RealS):
             return n in ('float',)
+        if z3.is_fp_sort(s):
+            return n == 'float'
         return False
     pytypes = {'str': str, 'int': int, 'bool': bool, 'float': float, 'tuple': tuple}
     if v is None:
